@@ -300,7 +300,7 @@ def far_part(rng, a, b, where, shape, perp="same", huge=False):
     by 2^60, where one ulp is larger than the operands' features (rectangles only; all coordinates stay
     representable)"""
     bb = [gen.bbox(a), gen.bbox(b)]
-    bb = [x for x in bb if x]
+    bb = [x for x in bb if x] or [(0, 0, 1, 1)]     # both operands empty: any place is far away
     x0 = min(x[0] for x in bb); y0 = min(x[1] for x in bb)
     x1 = max(x[2] for x in bb); y1 = max(x[3] for x in bb)
     isf = isinstance(x0, float)
